@@ -13,7 +13,7 @@ CLAIMS = {
              "diffusion weight 1) of all ten step bodies as a polynomial identity in opaque f, g; Roessler's order "
              "conditions for the tableaus actually imported; advertised strong_order <= literature order per "
              "(solver, noise type). The limit dt->0 itself is not decided. Derivative-free Milstein: finite difference at one time, and no O(h^1.5) bias per step (second-order weight of the difference quotient times E[v] vanishes). R02.6: for a generic scalar SDE the two local-error hypotheses of Milstein's fundamental theorem (mean-square local error O(h^(p+1/2)), mean local error O(h^(p+1))) hold at the advertised p for every (solver, noise type, option) scenario, by symbolic stochastic Taylor expansion of the step body.",
-        note="Partial: necessary conditions in general; for scalar SDEs with smooth Lipschitz coefficients R02.6 establishes the hypotheses of the convergence theorem (the theorem itself is cited, not mechanised). " + TRUSTED),
+        note="Partial: necessary conditions in general; for scalar SDEs with smooth Lipschitz coefficients R02.6 establishes the hypotheses of the convergence theorem (the theorem itself is cited, not mechanised). All of this concerns grid states: an output time strictly inside a step is the linear interpolant C12 prescribes, whose error is of order sqrt(dt) whatever the solver (reproduced; DESIGN 10.9 observation (x)) -- no check decides or reports that. " + TRUSTED),
     "C02": dict(
         technique="ast formula canonicalisation against textbook formulas; exact rational tableau arithmetic",
         text="Euler and derivative-based Milstein steps equal their textbook formulas as polynomial identities in "
